@@ -665,6 +665,44 @@ for kind in ("point", "sdh", "crack"):
                               dict(kind=kind, key=k, first_request=sorted(first), numangles=nang, frequency=f_,
                                    after_history=np.asarray(h_full[k]), fresh=np.asarray(f_full[k])), failing_input_found=True)
 
+# ---- history: a caller edits, in place, the angle grids it obtained from make_angles_grid (to evaluate the functions on
+#      shifted angles); the matrices asked afterwards are still S[j, i] = S(theta_i, theta_j) on the documented grid
+for kind in ("point", "sdh", "crack"):
+    f_ = 2.0e6
+    for nang in (6, 9):
+        theta_ = np.linspace(-np.pi, np.pi, nang, endpoint=False)
+        ig_, og_ = scat.make_angles_grid(nang)
+        try:
+            ig_ += 0.37
+            og_ -= 0.21
+        except ValueError:
+            # a fresh grid is an ordinary writable array (np.meshgrid copies); a read-only one is an array that was handed out
+            # before and that an earlier holder (the library's own matrix code included) has since frozen
+            chk.violation(f"{kind}:grid-caller-edit:shared", f"make_angles_grid({nang}) returns a read-only array: the caller cannot shift its own "
+                          "copy of the grid (fresh grids are writable; this one is shared with an earlier request)",
+                          dict(numangles=nang, history="earlier matrix requests with the same numangles; then make_angles_grid(n)[0] += 0.37"),
+                          failing_input_found=True)
+            continue
+        o_ = _mk(kind)
+        shifted_ = o_(ig_, og_, f_)                                   # the caller's own use of the edited grids
+        mats_ = o_.as_single_freq_matrices(f_, nang)
+        multi_ = o_.as_multi_freq_matrices(np.array([f_, 1.5 * f_]), nang)
+        want_ = _mk(kind)(theta_[np.newaxis, :] + 0 * theta_[:, np.newaxis], theta_[:, np.newaxis] + 0 * theta_[np.newaxis, :], f_)
+        evaluations += 4
+        nontrivial.add(("grid-caller-edit", kind, nang))
+        sc_ = max(float(np.max(np.abs(v))) for v in want_.values())
+        for k in ("LL", "LT", "TL", "TT"):
+            if not (_same(np.asarray(mats_[k]), np.asarray(want_[k]), sc_, 1e-10) and _same(np.asarray(multi_[k][0]), np.asarray(want_[k]), sc_, 1e-10)):
+                chk.violation(f"{kind}:grid-caller-edit",
+                              f"{kind}: after a caller edited in place the arrays returned by make_angles_grid({nang}), the matrix S_{k} "
+                              "is no longer S[j, i] = S(theta_i, theta_j) on the documented grid",
+                              dict(kind=kind, key=k, numangles=nang, frequency=f_, caller_shift=[0.37, -0.21],
+                                   got=np.asarray(mats_[k]), expected=np.asarray(want_[k])), failing_input_found=True)
+        g2_ = scat.make_angles_grid(nang)
+        if not (np.array_equal(g2_[0], np.broadcast_to(theta_[np.newaxis, :], (nang, nang))) and np.array_equal(g2_[1], np.broadcast_to(theta_[:, np.newaxis], (nang, nang)))):
+            chk.violation(f"{kind}:grid-caller-edit:grid", f"make_angles_grid({nang}) after a caller edited an earlier result is not the documented grid",
+                          dict(numangles=nang, got_inc=np.asarray(g2_[0]), got_out=np.asarray(g2_[1])), failing_input_found=True)
+
 chk.cov["measured_max_residuals"] = {k: worst[k] for k in sorted(worst)}
 chk.finish(
     evaluations=evaluations,
